@@ -278,6 +278,38 @@ theorem no_update_loop_after_create (c : Cfg) (t body : JVal) (ov : List (String
   subst hr
   exact no_mutation_at_target c t body _ h.wf hla hm ho
 
+/-! ## the forced kind/name overlay never brings an explicit null into the target
+
+  `NoNulls` is the stated domain of the fixpoint clauses because a null member can never be met: the
+  API server does not store it and a merge-patch with it deletes the key.  The part of every target that
+  koreo itself supplies (`_forced_overlay`, C12's `forcedOverlay`) respects that domain for namespaced and
+  for cluster-scoped kinds alike: without a namespace the `namespace` member is absent, not null. -/
+
+theorem forced_overlay_no_nulls (apiVersion kind name : String) (ns : Option String) :
+    noNullsB (.obj (forcedOverlay apiVersion kind name ns)) = true := by
+  cases ns <;> rfl
+
+/-- … and a target that did carry `namespace: null` could not be met by any object the server stores
+    (an object without nulls): the key is either missing or holds something that is not null -/
+theorem null_member_never_met (tkvs lkvs : List (String × JVal)) (la : JVal) (k : String)
+    (hk : isDirective k = false) (hn : keysNoDup tkvs = true) (ht : lookup k tkvs = some .null)
+    (hp : plainKey tkvs k = true) (hl : noNullsB (.obj lkvs) = true) :
+    meetsB .full (.obj tkvs) (.obj lkvs) la = false := by
+  cases h : meetsB .full (.obj tkvs) (.obj lkvs) la with
+  | false => rfl
+  | true =>
+    rw [meetsB.eq_1, Bool.and_eq_true] at h
+    have hkey := (meetsO_forall _ _ _ _ tkvs).mp h.2 (k, .null) (lookup_mem _ _ _ ht)
+    obtain ⟨_, cv, hcv, hm⟩ := (key_nonarr_iff _ _ _ _ _ hk rfl).mp hkey
+    simp only [plainKey, Bool.and_eq_true, Bool.not_eq_true'] at hp
+    simp only [cmpValue, hp.2, Bool.false_eq_true, ↓reduceIte] at hcv
+    have hcvn : cv = .null := by
+      cases cv <;> first | rfl | (rw [meetsB.eq_def] at hm; simp [scalarEq] at hm)
+    subst hcvn
+    rw [noNullsB.eq_3] at hl
+    have : noNullsB .null = true := noNullsO_lookup lkvs k .null hl hcv
+    cases this
+
 /-! ## non-vacuity: a concrete target with every directive, a decorated live object, a codec -/
 
 def exTarget : JVal := .obj [
@@ -339,6 +371,12 @@ example : refPresent exCfg (liveWithRefs (.arr [exForeign "a", exOwner, exForeig
 example : (match ownerFixOf exCfg (liveWithRefs (.arr [exForeign "a"])) with
     | some (.refs (.arr xs)) => xs.length == 2 && scanRefs (.str "a") (xs.take 1) == some true &&
         scanRefs (.str "uid-parent") (xs.drop 1) == some true
+    | _ => false) = true := by decide
+/-- the parent was re-created under the same name: its old entry (same kind and name, another uid) is not
+    ours — the check is by uid, so the live references plus the parent's current one are written -/
+example : (match ownerFixOf exCfg (liveWithRefs (.arr [.obj [("kind", .str "Trigger"), ("name", .str "parent"),
+      ("uid", .str "uid-before-recreation")]])) with
+    | some (.refs (.arr xs)) => xs.length == 2 && scanRefs (.str "uid-parent") (xs.drop 1) == some true
     | _ => false) = true := by decide
 /-- a member that is not a map before any match: `_validate_owner_reffed` raises -/
 example : (ownerFixOf exCfg (liveWithRefs (.arr [.str "junk", exOwner]))).isNone = true := by decide
